@@ -1059,9 +1059,23 @@ Proof.
 Qed.
 
 (* ------------------------------------------------------------------ the written descriptor of a well-formed type system *)
+(* the sections below only need the well-formedness WITHOUT the fuel bound of the no-clash walk (wf_ts_laxb); the
+   theorems for wf_tsb follow through wf_ts_lax_of *)
+Lemma noclash_lax_of st : noclashb st = true -> noclash_laxb st = true.
+Proof.
+  unfold noclashb, noclash_laxb. rewrite !forallb_forall. intros H t Ht. specialize (H t Ht).
+  unfold noclash1, noclash1_lax in *. apply andb_true_iff in H. destruct H as [-> H]. cbn [andb].
+  destruct (all_feats _ _ (st_super t)); [exact H|reflexivity].
+Qed.
+Lemma wf_ts_lax_of s : wf_tsb s = true -> wf_ts_laxb s = true.
+Proof.
+  unfold wf_tsb, wf_ts_laxb. rewrite !andb_true_iff. intros [[[[[H1 H2] H3] H4] H5] H6]. repeat split; auto.
+  apply noclash_lax_of. exact H3.
+Qed.
+
 Section Roundtrip.
   Variable s : tsys.
-  Hypothesis Hwf : wf_tsb s = true.
+  Hypothesis Hwf : wf_ts_laxb s = true.
 
   Let types := s_types s.
   Let EN := emit_names s.
@@ -1070,11 +1084,11 @@ Section Roundtrip.
   Let em := memb DOCANN EN.
 
   Lemma rt_parts :
-    NoDup (map st_name types) /\ forallb (wf_stypeb types) types = true /\ noclashb types = true /\
+    NoDup (map st_name types) /\ forallb (wf_stypeb types) types = true /\ noclash_laxb types = true /\
     NoDup (s_redecl s) /\
     forallb (fun n => (is_builtin n && negb (String.eqb n "uima.cas.TOP")) || String.eqb n DOCANN) (s_redecl s) = true /\
     docann_okb s = true.
-  Proof. unfold wf_tsb in Hwf. rewrite !andb_true_iff, !nodupb_NoDup in Hwf. tauto. Qed.
+  Proof. unfold wf_ts_laxb in Hwf. rewrite !andb_true_iff, !nodupb_NoDup in Hwf. tauto. Qed.
 
   Lemma rt_wf_type t : In t types -> wf_stypeb types t = true.
   Proof. destruct rt_parts as [_ [H _]]. rewrite forallb_forall in H. apply H. Qed.
@@ -1226,7 +1240,7 @@ Proof. induction l as [|x r IH]; cbn; [reflexivity|]. rewrite IH. reflexivity. Q
 
 Section Roundtrip2.
   Variable s : tsys.
-  Hypothesis Hwf : wf_tsb s = true.
+  Hypothesis Hwf : wf_ts_laxb s = true.
   Variable da : stype.
   Hypothesis Hda : find_st DOCANN (s_types s) = Some da.
   Hypothesis Hin : In da (s_types s).
@@ -1380,11 +1394,11 @@ Section Roundtrip2.
     - rewrite map_st_name_stype. apply user_decls_names. exact r2_nodup.
   Qed.
 
-  Lemma r2_noclash : noclashb (map stype_of_decl (user_decls P)) = true.
+  Lemma r2_noclash : noclashb types = true -> noclashb (map stype_of_decl (user_decls P)) = true.
   Proof.
-    unfold noclashb. rewrite (Permutation_length r2_content_perm), map_length.
+    intros Hnc. unfold noclashb. rewrite (Permutation_length r2_content_perm), map_length.
     rewrite (forallb_perm _ _ _ r2_content_perm), forallb_map.
-    destruct (rt_parts s Hwf) as [_ [_ [Hnc _]]]. unfold noclashb in Hnc.
+    unfold noclashb in Hnc.
     rewrite forallb_forall in *. intros t Ht. specialize (Hnc t Ht). unfold noclash1 in *.
     cbn [norm_type st_feats st_super]. apply andb_true_iff in Hnc. destruct Hnc as [H1 H2].
     assert (map sf_name (map norm_feat (st_feats t)) = map sf_name (st_feats t)) as En by (rewrite map_map; reflexivity).
@@ -1437,18 +1451,18 @@ End Roundtrip2.
 
 Lemma wf_written s : wf_tsb s = true -> wf_descrb (descr_of_ts s) = true.
 Proof.
-  intros Hwf. destruct (rt_da s Hwf) as [da [Hda [Hin [Hname Hdef]]]].
+  intros Hwf0. pose proof (wf_ts_lax_of s Hwf0) as Hwf. destruct (rt_da s Hwf) as [da [Hda [Hin [Hname Hdef]]]].
   unfold wf_descrb. cbv zeta. rewrite (rt_prep s Hwf da Hda Hin Hname). rewrite !andb_true_iff. repeat split.
   - apply nodupb_NoDup. apply r2_nodup; assumption.
   - apply r2_wf_all; assumption.
-  - apply r2_noclash; assumption.
+  - apply r2_noclash; try assumption. unfold wf_tsb in Hwf0. rewrite !andb_true_iff in Hwf0. tauto.
 Qed.
 
 Theorem roundtrip s order : wf_tsb s = true -> order_okb order (descr_of_ts s) = true ->
   exists s', ts_of_descr order (descr_of_ts s) = Ok s' /\ canon s' = canon (norm_ts s).
 Proof.
-  intros Hwf Hord. exists (state_of order (descr_of_ts s)). split; [apply load_wf; [apply wf_written; exact Hwf|exact Hord]|].
-  destruct (rt_da s Hwf) as [da [Hda [Hin [Hname Hdef]]]].
+  intros Hwf0 Hord. exists (state_of order (descr_of_ts s)). split; [apply load_wf; [apply wf_written; exact Hwf0|exact Hord]|].
+  pose proof (wf_ts_lax_of s Hwf0) as Hwf. destruct (rt_da s Hwf) as [da [Hda [Hin [Hname Hdef]]]].
   assert (HP : prep (descr_of_ts s) = PE s da) by (apply rt_prep; assumption).
   unfold order_okb in Hord. rewrite HP in Hord. apply andb_true_iff in Hord. destruct Hord as [Htopo Hcov].
   assert (Hnd : NoDup (map t_name (PE s da))) by (apply r2_nodup; assumption).
@@ -1636,7 +1650,7 @@ Qed.
 
 Section Written.
   Variable s : tsys.
-  Hypothesis Hwf : wf_tsb s = true.
+  Hypothesis Hwf : wf_ts_laxb s = true.
   Variable da : stype.
   Hypothesis Hda : find_st DOCANN (s_types s) = Some da.
   Hypothesis Hin : In da (s_types s).
@@ -1698,7 +1712,7 @@ End Written.
 
 Lemma written_form s : wf_tsb s = true -> emitted_formb (descr_of_ts s) = true.
 Proof.
-  intros Hwf. destruct (rt_da s Hwf) as [da [Hda [Hin [Hname _]]]].
+  intros Hwf0. pose proof (wf_ts_lax_of s Hwf0) as Hwf. destruct (rt_da s Hwf) as [da [Hda [Hin [Hname _]]]].
   unfold emitted_formb. rewrite (rt_trim_emitted s Hwf da Hda). apply andb_true_iff. split.
   - apply wr_sorted; assumption.
   - apply wr_exact; assumption.
